@@ -6,6 +6,7 @@ import (
 	"math"
 	"reflect"
 
+	"github.com/arr-ai/hash"
 	"github.com/arr-ai/wbnf/parser"
 
 	"github.com/arr-ai/arrai/pkg/fu"
@@ -115,11 +116,13 @@ func (a Array) Values() []Value {
 
 // Hash computes a hash for a Array.
 func (a Array) Hash(seed uintptr) uintptr {
-	h := seed
+	// Mixed like GenericSet.Hash: a plain XOR made [x] hash like the set {{}, x's item tuple}, and
+	// frozen.Set treats equal hashes as equal values.
+	var h uintptr
 	for e := a.Enumerator(); e.MoveNext(); {
 		h ^= e.Current().Hash(seed)
 	}
-	return h
+	return hash.Uintptr(h, seed)
 }
 
 // Equal tests two Sets for equality. Any other type returns false.
